@@ -287,22 +287,16 @@ func billableServiceInstancesDeltas(change memdb.Change, usageDeltas map[string]
 		// or decrement by 1 depending on the situation.
 		before := change.Before.(*structs.ServiceNode)
 		after := change.After.(*structs.ServiceNode)
-		// Service name changed away from "consul" means we now need to account for this service instances unless it's a "connect" service.
-		if before.ServiceName == structs.ConsulServiceName && after.ServiceName != structs.ConsulServiceName {
-			if after.ServiceKind == structs.ServiceKindTypical {
-				usageDeltas[billableServiceInstancesTableName()] += 1
-				addEnterpriseBillableServiceInstanceUsage(usageDeltas, after, 1)
-			}
+		// An instance is billable iff it is typical and not the "consul" service: the delta of an
+		// update is the difference of that predicate, whatever combination of name and kind changed.
+		billable := func(sn *structs.ServiceNode) bool {
+			return sn.ServiceKind == structs.ServiceKindTypical && sn.ServiceName != structs.ConsulServiceName
 		}
-		if before.ServiceName != structs.ConsulServiceName && after.ServiceName == structs.ConsulServiceName {
-			usageDeltas[billableServiceInstancesTableName()] -= 1
-			addEnterpriseBillableServiceInstanceUsage(usageDeltas, before, -1)
-		}
-
-		if before.ServiceKind != structs.ServiceKindTypical && after.ServiceKind == structs.ServiceKindTypical {
+		switch wasBillable, isBillable := billable(before), billable(after); {
+		case !wasBillable && isBillable:
 			usageDeltas[billableServiceInstancesTableName()] += 1
 			addEnterpriseBillableServiceInstanceUsage(usageDeltas, after, 1)
-		} else if before.ServiceKind == structs.ServiceKindTypical && after.ServiceKind != structs.ServiceKindTypical {
+		case wasBillable && !isBillable:
 			usageDeltas[billableServiceInstancesTableName()] -= 1
 			addEnterpriseBillableServiceInstanceUsage(usageDeltas, before, -1)
 		}
